@@ -350,6 +350,8 @@ func join(a, b context, node parse.Node, nodeName string) context {
 	}
 	a.attr.dynamic = a.attr.dynamic || b.attr.dynamic
 	a.element.continued = a.element.continued || b.element.continued
+	// e.g. `<a{{if .C}} {{end}}title="x">`: on one path the tag name is still unfinished.
+	a.element.partial = a.element.partial || b.element.partial
 	a.attr.dynamicStart = a.attr.dynamicStart || b.attr.dynamicStart
 
 	if a.eq(b) {
